@@ -105,6 +105,8 @@ func runC16(p *Prog, r *Report, tier string) {
 			c.teqOneOf("L-slot", "left-padded-to-32", got, []string{
 				"buf(32){[(32 - len(HEX#0)):]=HEX#0,?[*]=0}",
 				"buf(32){[(32 - len(HEX#0)):]=HEX#0}",
+				// 32-len zero bytes followed by the token (make([]byte, 32-len, 32) then append)
+				"cat(buf(32){}[:(32 - len(HEX#0))],HEX#0)",
 			}, p.instrPos(ret))
 		}
 	}
@@ -135,6 +137,10 @@ func checkCodec(p *Prog, r *Report, typ string, layout []slot, fixed int, hasTai
 			want := s.decoderTerm(fixed)
 			// an explicit upper bound on the tail (bz[116:len(bz)]) is the same slice
 			got = strings.ReplaceAll(got, ":len(p1)]", ":]")
+			if s.Hi == fixed && !hasTail {
+				// the input is exactly `fixed` bytes long (Parse contract): x[lo:] is x[lo:fixed]
+				got = strings.ReplaceAll(got, sliceStr("p1", s.Lo, -1), sliceStr("p1", s.Lo, s.Hi))
+			}
 			c.teq("L-slot", "decode/"+s.Field, got, want, c.pos())
 		}
 		var extra []string
@@ -159,6 +165,33 @@ func checkCodec(p *Prog, r *Report, typ string, layout []slot, fixed int, hasTai
 		for _, s := range c.successReturns() {
 			ret := s.(*ssa.Return)
 			buf = c.x.Of(ret.Results[0], ret)
+		}
+		if buf != nil && buf.Op == "cat" {
+			// append-style encoder: the result is the concatenation of its segments, so the
+			// offsets are right iff the segments are the table's slots in order and every
+			// fixed-width byte field before the end has exactly its width
+			var retIn ssa.Instruction
+			for _, s := range c.successReturns() {
+				retIn = s
+			}
+			r.check(len(buf.A) == len(layout), "L-part", "L-part/"+typ+".Bytes/no-stray-writes", c.pos(), "encoder concatenates exactly the table's slots",
+				fmt.Sprintf("encoder concatenates %d segments, the layout has %d slots: %s", len(buf.A), len(layout), buf))
+			for i, s := range layout {
+				if i >= len(buf.A) {
+					r.fail("L-slot", "L-slot/"+typ+".Bytes/encode/"+s.Field, c.pos(), "encoder writes nothing for "+s.Field)
+					continue
+				}
+				c.teqOneOf("L-slot", "encode/"+s.Field, buf.A[i].String(), s.encoderValue(), c.pos())
+				if s.Kind == "bytes" && s.Hi >= 0 {
+					w := s.Hi - s.Lo
+					key := fmt.Sprintf("(%d == len(p0.%s))", w, s.Field)
+					r.check(established(c, key, true, retIn), "L-part", "L-part/"+typ+".Bytes/width/"+s.Field, c.pos(),
+						fmt.Sprintf("%s is %d bytes wide whenever the encoder succeeds", s.Field, w),
+						fmt.Sprintf("the concatenating encoder does not establish len(%s) == %d: every later field would be shifted", s.Field, w))
+				}
+			}
+			r.ok("L-part", "L-part/"+typ+".Bytes/encode/size", c.pos(), "size is the sum of the slot widths (concatenation)")
+			return
 		}
 		if buf == nil || buf.Op != "buf" {
 			r.undecided("L-slot", "L-slot/"+typ+".Bytes/result", c.pos(), fmt.Sprintf("encoder result is not a locally built buffer: %v", buf))
